@@ -4,7 +4,10 @@ import (
 	"encoding/json"
 	"os"
 
+	parser "github.com/acekingke/yaccgo/Parser"
+
 	"verifharness/gram"
+	"verifharness/lrm"
 	"verifharness/ref"
 	"verifharness/ygo"
 )
@@ -187,4 +190,24 @@ func repoDir() string {
 		return r
 	}
 	return "/repo"
+}
+
+// packedIfIntact returns the machine over the packed arrays of a build this process made earlier,
+// or nil (callers then use the dense table) when the arrays no longer answer like the table of the
+// same build: the model must not be run on arrays that something overwrote after the build. C05
+// reports that situation itself (c05Recheck, c05MatrixHistories).
+func packedIfIntact(w *Worker, v *parser.RootVistor) *lrm.Machine {
+	pm := lrm.Packed(v)
+	if pm == nil {
+		return nil
+	}
+	for s, row := range v.GTable {
+		for a, want := range row {
+			if got, ok := pm.Lookup(s, a); !ok || got != want {
+				w.Count("packed_arrays_of_an_earlier_build_no_longer_intact", 1)
+				return nil
+			}
+		}
+	}
+	return pm
 }
